@@ -122,6 +122,10 @@ class Backend:
                 if self.backend == "python":
                     for text in GD.nested_sized_payload(random.Random(self.seed * 7919 + 29)):
                         self.add_text(text, origin="nested-sized-payload")
+            if self.backend in ("python", "java", "cxx") and getattr(self.opts, "inheritance", True):
+                # a middle packet with a sized payload of its own below an unsized / sized one (own PRNG stream)
+                for text in GD.nested_sized_mid(random.Random(self.seed * 7919 + 31)):
+                    self.add_text(text, origin="nested-sized-mid")
             if self.backend in ("python", "cxx"):
                 # groups and elements wider than 32 bits (own PRNG stream; the Java class leaves them out: KF-C19-int-chunk)
                 wrng = random.Random(self.seed * 4099 + 5)
